@@ -65,7 +65,8 @@ def scope_defs(repo, nmax, with_corpus=True, nmin=1, fork_depth=3):
     return defs
 
 
-def extended_defs(nb, staged=True, bunched=True, leadloop=None):
+def extended_defs(nb, staged=True, bunched=True, leadloop=None,
+                  stretched=(4, 10)):
     """definitions beyond fragment F whose job sets the tool must handle just
     the same (general statements of C01/C05): bunched forks (as in the
     corpus' bunched_* cases) with <= nb events and the staged-merge family"""
@@ -76,6 +77,10 @@ def extended_defs(nb, staged=True, bunched=True, leadloop=None):
         out += [("FS", d) for d in fragment.staged_merge_family()]
         # branches that die inside a loop body
         out += [("FD", d) for d in fragment.kill_in_loop_family()]
+    if stretched:
+        # long sequences: the block structures of F_n with every event drawn
+        # out to a chain, so that fork, merge and loop ends lie far apart
+        out += [("FX", d) for d in fragment.stretched_family(*stretched)]
     if leadloop is None:
         leadloop = max(nb, 5)
     if leadloop:
